@@ -120,9 +120,9 @@ func c03Profiles(tier Tier) []*explore.Profile {
 		Seeds:   seedsOf("mixed"),
 		Menu:    func(w *world.World) []world.Action { return accountMenu(w, o) },
 	}
-	depth := 4
+	depth := 3
 	if tier.Thorough() {
-		depth = 5
+		depth = 4
 	}
 	hist := &explore.Profile{
 		Name: "authority", EnvCfg: ledgerEnv(2), Depth: depth, Deadline: tierDeadline(tier), Oracles: orc,
